@@ -63,4 +63,5 @@ REG.contracts["_DataFiles.read_data"].replay = _replay_read_data
 from bounded import c18_crash
 bounded_check(name="c18-crash-states", fn=c18_crash.run_case, domain=c18_crash.domain, exhaustive=True, serial=False,
               label="B3: every byte prefix of the new history/objectdb files (and every 3rd prefix of the old ones; thorough: every), and a simulated "
-                    "process death before each of the first 39 data-file operations of close(); reopen, history, undo, analyse")
+                    "process death before each of the first 39 data-file operations of close(), and after every single byte that the REAL close() pushes through write() "
+                    "on the data files (partial write, whatever way the save opens/overwrites/truncates them); reopen, history, undo, analyse")
